@@ -30,7 +30,8 @@ TRUSTED_BASE = [
 ]
 
 RS2LEAN_SPECS = [('words.json', 'WordsSrcGen.lean', 'SrcWords'), ('rdh.json', 'RdhSrcGen.lean', 'SrcRdh'),
-                 ('payload.json', 'PayloadSrcGen.lean', 'SrcPayload')]
+                 ('payload.json', 'PayloadSrcGen.lean', 'SrcPayload'),
+                 ('stateful.json', 'StateSrcGen.lean', 'SrcState')]
 
 os.makedirs(CACHE, exist_ok=True)
 
